@@ -256,6 +256,36 @@ def runSched (pinned : Bool) (limit : Int) (stops : List Bytes) (cap tail : Nat)
           | [] => runSched pinned limit stops cap tail st' (c'.read tail) [] rest
           | r :: rs => runSched pinned limit stops cap tail st' (c'.read r) rs rest
 
+/-! ## several sequences in one batch
+
+processBatch handles every active sequence in one call; a sequence whose next input does not fit
+into the batch (small batch size, other sequences' prompts) is not sampled in that call — but the
+prediction-limit check at the top of the call is still made for it.  From the point of view of one
+sequence this is `run` with `k_i` extra calls before its i-th sampling step in which only the limit
+check happens. -/
+
+/-- `k` calls of processBatch in which the sequence is not sampled -/
+def skipCalls (limit : Int) : St → Nat → St
+  | st, 0 => st
+  | st, k + 1 =>
+    if limit > 0 ∧ (st.numPredicted : Int) ≥ limit then st.finish .length .limit
+    else skipCalls limit st k
+
+def runSkips (pinned : Bool) (limit : Int) (stops : List Bytes) : St → List Nat → List Ev → St
+  | st, skips, [] =>
+    let st0 := skipCalls limit st (skips.headD 0)
+    if st0.done.isSome then st0
+    else if limit > 0 ∧ (st0.numPredicted : Int) ≥ limit then st0.finish .length .limit else st0
+  | st, skips, ev :: rest =>
+    let st0 := skipCalls limit st (skips.headD 0)
+    if st0.done.isSome then st0
+    else if limit > 0 ∧ (st0.numPredicted : Int) ≥ limit then st0.finish .length .limit
+    else match ev with
+      | .eos => ({ st0 with numPredicted := st0.numPredicted + 1 }).finish .stop .eos
+      | .piece p =>
+        let st' := stepPiece pinned stops st0 p
+        if st'.done.isSome then st' else runSkips pinned limit stops st' skips.tail rest
+
 /-- the text generated up to the terminating event -/
 def St.genText (st : St) : Bytes := st.gen.flatten
 /-- the concatenation of everything streamed -/
